@@ -8,7 +8,7 @@
     the extracted monitor [ok_dir]). *)
 From Coq Require Import Arith ZArith Bool List Lia.
 From GoSecs Require Import Gen.Gen Gen.BridgeSecs1 Secs1.Block Secs1.BlockProofs
-  Secs1.Line Secs1.LineProofs Secs1.LineBytes.
+  Secs1.Assembler Secs1.AssemblerProofs Secs1.Line Secs1.LineProofs Secs1.LineBytes Secs1.LineAssembler.
 Import ListNotations.
 Open Scope nat_scope.
 
@@ -105,6 +105,28 @@ Theorem C18_recv_length_up : forall b lb',
   wf_block b -> (lb' > wire_len b \/ lb' < 10)%Z -> recv_bytes (lb' :: wire_rest b) = None.
 Proof. exact recv_length_up. Qed.
 Print Assumptions C18_recv_corrupt.
+
+(** ** The receiver of the line model IS the C17 assembler, abstracted: for every encoding of
+    abstract blocks as real blocks whose message header is well-formed, addressed to us and
+    determined injectively by the token (distinct system bytes), [hand] and the E4 reading of the
+    assembler ([spec_step]; equal to the assembler model on deliveries by C17_assembler) stay in
+    the abstraction relation, take the same duplicate decision, and a frame is delivered exactly
+    when a token is. *)
+Theorem C18_receiver_is_C17_assembler :
+  forall (cfg : acfg) (hdr_of_tok : nat -> mheader) (body_of : bid -> list Z),
+  (forall t, wf_mheader (hdr_of_tok t)) ->
+  (forall t, h_dev (hdr_of_tok t) = c_dev cfg /\ h_rbit (hdr_of_tok t) = negb (c_equip cfg)) ->
+  (forall t t', hdr_of_tok t = hdr_of_tok t' -> t = t') ->
+  forall e s b,
+  abs_rel hdr_of_tok body_of e s -> small b ->
+  let e' := hand e b in
+  let '(s', d) := spec_step cfg s (enc hdr_of_tok body_of b) in
+  abs_rel hdr_of_tok body_of e' s' /\
+  ((d = [] /\ e_deliv e' = e_deliv e) \/
+   (exists run, d = [frame_of run] /\ last_ev run = enc hdr_of_tok body_of b /\
+                e_deliv e' = e_deliv e ++ [b_tok b])).
+Proof. exact hand_is_assembler. Qed.
+Print Assumptions C18_receiver_is_C17_assembler.
 
 (** ** Outside the fault model (not detectable by E4): NAK replaced by ACK makes a send succeed
     with nothing delivered. *)
